@@ -500,13 +500,15 @@ class CompositeFrontend(ConstrainedFrontend):
             else:
                 combined_noncommons.append(ns[0].combine(ns[1:]))
 
+        merged.constraints = list(itertools.chain.from_iterable(a.constraints for a in merged._solver_list))
+
         if len(combined_noncommons):
             _, merged_noncommon = combined_noncommons[0].merge(combined_noncommons[1:], merge_conditions)
 
-            merged._owned_solvers.add(merged_noncommon)
-            merged._store_child(merged_noncommon)
+            # go through add(): the merged constraint may share variables with the common children (when the merge
+            # conditions mention them), in which case it belongs into the same child, or have no variables at all
+            merged.add(merged_noncommon.constraints)
 
-        merged.constraints = list(itertools.chain.from_iterable(a.constraints for a in merged._solver_list))
         return True, merged
 
     def split(self):
